@@ -87,6 +87,10 @@ def type_closure(F, roots):
     return seen
 
 
+FMT_TRAITS = {"debug": "core::fmt::Debug", "display": "core::fmt::Display", "lower_hex": "core::fmt::LowerHex", "upper_hex": "core::fmt::UpperHex",
+              "lower_exp": "core::fmt::LowerExp", "upper_exp": "core::fmt::UpperExp", "binary": "core::fmt::Binary", "octal": "core::fmt::Octal", "pointer": "core::fmt::Pointer"}
+
+
 def reach_from(F, entries, stop=()):
     """Workspace bodies reachable from the entry items through resolved calls, constructed closures,
     function-item operands, unresolved workspace trait methods (all impls), and — for serde-style
@@ -143,6 +147,19 @@ def reach_from(F, entries, stop=()):
                             if any(a in st for a in clo):
                                 for bb in F.item(t.path):
                                     add(bb, "deserialisation of %s via %s" % (sorted(roots)[0], nc))
+            # formatting: `{:?}` / `{}` of a workspace type runs its Debug/Display impl (handed over as a function pointer by
+            # format_args!, so there is no call edge) — also inside logging macros, whose arguments are rendered at run time
+            if nc and nc.startswith("core::fmt::rt::Argument::new_"):
+                tr = FMT_TRAITS.get(nc.rsplit("new_", 1)[1])
+                roots = _adt_names_in(c["targs"], F) if tr else set()
+                if roots:
+                    clo = type_closure(F, roots)
+                    for tname in (tr, "core::fmt::Debug") if tr != "core::fmt::Debug" else (tr,):
+                        for t in by_selfty_trait.get(tname, []):
+                            st = t.self_ty or ""
+                            if any(st == a or st.startswith(a + "<") or (a + "<") in st or st.endswith(a) for a in clo) and not t.mac:
+                                for bb in F.item(t.path):
+                                    add(bb, "formatting of %s (%s) in %s" % (sorted(roots)[0], tname.split("::")[-1], b.npath))
         # function items passed as values
         try:
             blocks = b.blocks
@@ -486,6 +503,18 @@ def index_guarded(F, body, site):
     return True, "dominated by len >= %d" % need
 
 
+# `&self.to_hex()[0..6]` in the Debug impls of the fixed-size address types: the string is the hex form of a fixed number of bytes
+# (confirmed by reading each to_hex), so the constant range is always in bounds.  NetworkAddress's Debug is NOT in this table: its
+# RecordKey variant slices the hex of an arbitrary-length key.
+FIXED_LEN_HEX = set()
+FIXED_LEN_HEX_FNS = {
+    "<ant_protocol::storage::address::chunk::ChunkAddress as core::fmt::Debug>::fmt": "to_hex() = hex::encode(XorName: 32 bytes) = 64 chars >= 6",
+    "<ant_protocol::storage::address::scratchpad::ScratchpadAddress as core::fmt::Debug>::fmt": "to_hex() = hex::encode(XorName: 32 bytes) = 64 chars >= 6",
+    "<ant_protocol::storage::address::transaction::TransactionAddress as core::fmt::Debug>::fmt": "to_hex() = hex::encode(XorName: 32 bytes) = 64 chars >= 6",
+    "<ant_registers::address::RegisterAddress as core::fmt::Debug>::fmt": "to_hex() = hex::encode(32-byte meta ++ 48-byte owner key) = 160 chars >= 6",
+}
+
+
 def no_panic_reach(self, rule, entries, descr=None, suppress=None, stop=(), floor_bodies=1):
     """K8.  suppress: {(root fn npath, kind, shape): reason}"""
     suppress = suppress or {}
@@ -511,6 +540,9 @@ def no_panic_reach(self, rule, entries, descr=None, suppress=None, stop=(), floo
                     continue
             if key in suppress:
                 used.add(key)
+                continue
+            if (root, s["kind"].split(":")[-1] if False else s["kind"]) in FIXED_LEN_HEX or any(root == r for r in FIXED_LEN_HEX_FNS) and "index::Index" in s["kind"] and "String" in s["shape"]:
+                discharged.append({"fn": root, "site": s["kind"], "line": s["line"], "by": FIXED_LEN_HEX_FNS.get(root, "fixed-length hex string")})
                 continue
             ok = False
             self.viol(rule, "panic-site:%s|%s|%s" % key,
